@@ -1574,8 +1574,12 @@ class Connection(object):
             elif isinstance(result, InvalidRequestException):
                 callback(self, result.to_exception())
             else:
-                callback(self, self.defunct(ConnectionException(
-                    "Problem while setting keyspace: %r" % (result,), self.endpoint)))
+                # defunct() returns None when the connection is already defunct or closed:
+                # the callback must see the failure in that case too
+                exc = ConnectionException(
+                    "Problem while setting keyspace: %r" % (result,), self.endpoint)
+                self.defunct(exc)
+                callback(self, exc)
 
         # We've incremented self.in_flight above, so we "have permission" to
         # acquire a new request id
